@@ -87,6 +87,19 @@ CHECKS = {
         "PRO vs Ty) are listed in known_findings.json by exact signature. String payloads excluded "
         "(constructor recursion, outside the listed properties).",
         "DESIGN.md 4/C03"),
+    "C04": (
+        "exhaustive enumeration of a family of functors (all object maps x arrow-map kinds x supply modes) "
+        "times all source diagrams of the bounded universe, applied through the real Functor classes",
+        "cat, monoidal and rigid functors: every object map from the source atoms into a menu of image "
+        "types (empty, one wire, an adjoint wire, two wires, two adjoint wires), single-box and two-box "
+        "arrow images, supplied as dict, as dict-backed callable and as total callable, are applied to every "
+        "source diagram (asymmetric boxes, daggers, scalars, all orientations of cups/caps, swaps). Checked: "
+        "dom/cod against a reference image of types with adjoints, C01 scan, every split point, identity, "
+        "every layer against reference images (table, nested cups/caps, block swaps by label tracer), "
+        "dagger, tensor and sums on pool pairs, images of all types of length <= 2 and their adjoints.",
+        "== on returned diagrams is trusted (C03). Known finding: dagger of swaps with multi-wire images "
+        "(known_findings.json). Bounds in evidence.",
+        "DESIGN.md 4/C04"),
 }
 
 PENDING_REASON = ("check not built yet in this session (planned: bounded exhaustive exploration as in "
